@@ -201,6 +201,7 @@ func propC19(c *Ctx, r *Report) {
 		}
 	}
 
+	ruleHeightOnce(c, cat, r, "C19-R5/version-rows-kept")
 	// R4 fork table sanity
 	r.rule("C19-R4/fork-list", 1, "Hardforks is ordered, consistent with the activations and satisfiable by this build")
 	forkList(c, r)
